@@ -394,6 +394,19 @@ class Polyline(Manifold):
     def residual(self, x) -> float:
         return float(np.linalg.norm(self._closest(x) - np.asarray(x, float)))
 
+    def closest(self, p):
+        return self._closest(p)
+
+    def is_local_foot(self, p, x, tol: float) -> bool:
+        """x is the foot point of p on one of the segments (a local minimiser of the distance along the polyline)"""
+        p, x = np.asarray(p, float), np.asarray(x, float)
+        for a, b in zip(self.pts[:-1], self.pts[1:]):
+            d = b - a
+            w = min(max(float((p - a) @ d) / float(d @ d), 0.0), 1.0)
+            if np.linalg.norm(a + w * d - x) <= tol:
+                return True
+        return False
+
     def param_box(self):
         return [list(self.box)]
 
